@@ -113,9 +113,12 @@ OutBuf::OutBuf(size_t n_, unsigned align_) : n(n_), align(align_) {
     memset(p + n, 0x5A, GUARD);
 }
 OutBuf::~OutBuf() { free(mem); }
+// set once a canary next to an output buffer or object has been found overwritten: from then on the
+// process image cannot be trusted, and a later harness error is the library's doing, not the plan's
+bool g_memory_corrupted = false;
 bool OutBuf::guards_ok() const {
-    for (size_t i = 0; i < GUARD + align; ++i) if (mem[i] != 0xA5) return false;
-    for (size_t i = 0; i < GUARD; ++i) if (p[n + i] != 0x5A) return false;
+    for (size_t i = 0; i < GUARD + align; ++i) if (mem[i] != 0xA5) { g_memory_corrupted = true; return false; }
+    for (size_t i = 0; i < GUARD; ++i) if (p[n + i] != 0x5A) { g_memory_corrupted = true; return false; }
     return true;
 }
 bool OutBuf::untouched(size_t from, size_t to) const {
@@ -182,6 +185,11 @@ void reg(const char *op, handler_t h) { g_handlers[op] = h; }
 void fatal(const char *fmt, ...) {
     char buf[512]; va_list ap; va_start(ap, fmt); vsnprintf(buf, sizeof buf, fmt, ap); va_end(ap);
     fprintf(stderr, "drv: plan line %ld: %s\n", g_line, buf);
+    if (g_memory_corrupted) {
+        // the plan was well-formed when it was read; a canary failure came first
+        if (g_out) { fprintf(g_out, "{\"e\":\"Fault\",\"kind\":\"harness state destroyed after a canary failure\",\"line\":%ld}\n", g_line); fflush(g_out); }
+        _exit(96);
+    }
     // a harness error, not a library fault
     if (g_out) { fprintf(g_out, "{\"e\":\"HarnessError\",\"line\":%ld}\n", g_line); fflush(g_out); }
     _exit(4);
